@@ -206,6 +206,23 @@ int main(int argc, char** argv) {
       if (p.Parse(&content, &err) || err.empty()) fail(text, "a dependency re-used as a target with dependencies was accepted", {}, {});
       else r.rejected_ok++;
     }
+    // the same with an already known dependency listed before the new one, in several layouts
+    for (const char* sep : {" ", " \\\n ", " \\\r\n "}) {
+      string e = Encode(n, false);
+      string text = "T.o: " + e + sep + "x.h\n" + e + ":" + sep + "x.h" + sep + "other.h\n";
+      string content = text, err;
+      DepfileParser p;
+      r.files++;
+      if (p.Parse(&content, &err) || err.empty()) fail(text, "a dependency re-used as a target with dependencies was accepted", {}, {});
+      else r.rejected_ok++;
+    }
+    // tolerated: the dependency reappears as a target WITHOUT dependencies (gcc -MP)
+    {
+      string e = Encode(n, false);
+      string text = "T.o: " + e + " x.h\n" + e + ":\nx.h:\n";
+      string why;
+      if (!CheckFile(text, {"T.o"}, {n, "x.h"}, &r, &why)) fail(text, "-MP style phony rules: " + why, {"T.o"}, {n, "x.h"});
+    }
   }
   printf("{\"cases\":%llu,\"files\":%llu,\"representable_names\":%llu,\"rejected_ok\":%llu,\"violations\":%llu,"
          "\"first_bad\":\"%s\",\"first_why\":\"%s\",\"backslash_dollar_failures\":%llu,\"bsd_bad\":\"%s\",\"bsd_why\":\"%s\",\"samples\":[",
